@@ -1,11 +1,171 @@
-(* C05 — Memory and DB metadata stores expose the same filesystem for the same blob. Statements only. *)
+(* C05 — Memory and DB metadata stores expose the same filesystem for the same blob.
+   Statements only; every proof is [exact <lemma of Proofs/TreeStores.v>] or a [vm_compute] witness.
+
+   FULL STATEMENT (not provable as it stands, see the _refuted witnesses below):
+     stores_agree : forall toc probes, conforming toc = true -> view_mem toc probes = view_db false toc probes
+   What is proved for ALL inputs: the attribute codec of the db store is the identity on what the memory store reports
+   (C05_attr_codec_roundtrip, byte level: C05_int_codec_bytes), names (C05_clean_normal_form), the db store's recomputed chunk table and ChunkEntryForOffset agree with the memory store's
+   for every file whose chunks tile it and every offset (C05_chunk_tables_agree, C05_chunk_lookup_agree), the TOC digest
+   (C05_toc_digest_agree), acceptance on hardlink-free TOCs (C05_stores_accept_hardlink_free) and the independence of the
+   layers of one database for every history (C05_db_layers_independent, C05_db_open_fresh).
+   LEFT OPEN (checked on every run by the correspondence check and the store-vs-store oracle only): equality of the two
+   TREES (names, link counts, hardlink identities) for all conforming TOCs outside the refuted classes; this is a
+   simulation proof between the two-pass interpreter (mem_build) and the streaming one (db_build). *)
 From Coq Require Import List ZArith Bool.
 From SV Require Import Model.TreeStores Proofs.TreeStores.
 Import ListNotations.
 Open Scope Z_scope.
 
-Theorem C05_attr_codec_roundtrip : forall a,
-  norm_attr (read_attr (write_attr a)) = norm_attr a.
+(* What the db store reads back (readAttr) from what it wrote (writeAttr) is, after the NumLink 0≡1 normalisation of the
+   FUSE layer, exactly the attributes it was given — sizes, times, link names, modes, owners, devices, xattrs incl.
+   empty-valued ones — for every attribute record. Both stores compute that record with the same attrFromTOCEntry. *)
+Theorem C05_attr_codec_roundtrip : forall a, norm_attr (read_attr (write_attr a)) = norm_attr a.
 Proof. intro a. rewrite codec_roundtrip. destruct a as [sz mt ln md u g dj dn xs nl]. unfold norm_attr, norm_nlink. simpl.
   f_equal. destruct (nl =? 1) eqn:E; [apply Z.eqb_eq in E; subst; reflexivity|reflexivity]. Qed.
 Print Assumptions C05_attr_codec_roundtrip.
+
+(* Byte level of the integer attributes (size, uid, gid, devMajor, devMinor, numLink, chunk/stream keys): binary.Varint
+   decodes what binary.PutVarint wrote into the 10-byte buffer, for every int64. *)
+Theorem C05_int_codec_bytes : forall x, - 2 ^ 63 <= x < 2 ^ 63 -> decode_int (encode_int x) = Some x.
+Proof. exact int_codec. Qed.
+Print Assumptions C05_int_codec_bytes.
+
+(* Names: both stores key their trees by cleanEntryName(name); cleaning is a normal form, so every respelling of a path
+   ("./a", "/a", "../a", "x/../a", "a//", "a/.") is the same key in both. *)
+Theorem C05_clean_normal_form : forall raw, clean (rev (clean raw)) = clean raw.
+Proof. exact clean_idempotent. Qed.
+Print Assumptions C05_clean_normal_form.
+
+(* For every file (a reg entry followed by its chunk entries) whose chunk table starts at 0, has strictly increasing
+   offsets and sizes that tile [0,size): the table the db store rebuilds from neighbouring chunk offsets (readChunks) is
+   the table of the TOC that the memory store serves. *)
+Theorem C05_chunk_tables_agree : forall r cs, file_conforming r cs ->
+  read_chunks (file_db_stored r cs) (e_size r) = file_table r cs.
+Proof. exact chunk_tables_agree. Qed.
+Print Assumptions C05_chunk_tables_agree.
+
+(* ... and ChunkEntryForOffset of the two stores returns the same (chunk offset, chunk size, digest) or the same "none"
+   at EVERY file offset (memory's single-chunk special case included). *)
+Theorem C05_chunk_lookup_agree : forall r cs off, file_conforming r cs -> 0 <= off ->
+  file_mem_lookup r cs off = file_db_lookup r cs off.
+Proof. exact chunk_lookup_agree. Qed.
+Print Assumptions C05_chunk_lookup_agree.
+
+(* TOC digest (after the repair of parseTOCEStargz): whatever prefix the JSON decoder happened to read ahead, the memory
+   store's digest is the hash of the whole TOC stream, i.e. the db store's. *)
+Theorem C05_toc_digest_agree : forall (H : list Z -> Z) k toc_bytes, digest_mem H k toc_bytes = digest_db H toc_bytes.
+Proof. exact digest_agree. Qed.
+Print Assumptions C05_toc_digest_agree.
+
+(* the code before the repair: trailing bytes the decoder did not read were not hashed *)
+Theorem C05_toc_digest_unrepaired_refuted : exists (H : list Z -> Z) k toc_bytes,
+  digest_mem_unrepaired H k toc_bytes <> digest_db H toc_bytes.
+Proof. exists (fun l => Z.of_nat (length l)), 1%nat, [123; 32]. vm_compute. discriminate. Qed.
+Print Assumptions C05_toc_digest_unrepaired_refuted.
+
+(* Both stores accept every TOC without hardlink entries that does not start with a chunk entry. *)
+Theorem C05_stores_accept_hardlink_free : forall toc,
+  Forall (fun e => e_type e <> THardlink) toc ->
+  match toc with e :: _ => e_type e <> TChunk | [] => True end ->
+  mem_build toc <> None /\ db_build toc <> None.
+Proof. intros toc Hf H1. split; [exact (mem_accepts toc Hf)|exact (db_accepts toc Hf H1)]. Qed.
+Print Assumptions C05_stores_accept_hardlink_free.
+
+(* Layers in one database: whatever is opened, closed or queried on OTHER layers (any history, any candidate ids the
+   id generator produces), a live layer shows exactly the same filesystem afterwards. *)
+Theorem C05_db_layers_independent : forall os d id probes,
+  l_find id d <> None -> (forall o, In o os -> lop_touches id o = false) ->
+  l_view (l_run d os) id probes = l_view d id probes.
+Proof. exact l_view_frame. Qed.
+Print Assumptions C05_db_layers_independent.
+
+(* Opening never reuses the id of a live layer, and the new layer shows the filesystem of its own TOC. *)
+Theorem C05_db_open_fresh : forall d cands toc c, pick_id d cands 100 = Some c ->
+  l_find c d = None /\
+  l_view (l_step d (LOpen cands toc)) c =
+    (fun probes => match db_build toc with Some _ => view_db false toc probes | None => l_view [(c, d_init)] c probes end).
+Proof. exact l_open_fresh. Qed.
+Print Assumptions C05_db_open_fresh.
+
+(* ---------- the full agreement statement is false of the faithful models: one witness per class ---------- *)
+
+Definition ent (name : list Z) (t : etype) : entry := E name t 0 None 0 [] 420 0 0 0 0 [] 0 0 0 0 0 0.
+Definition reg (name : list Z) (size dg cdg : Z) : entry := E name TReg size None 0 [] 420 0 0 0 0 [] 100 0 0 0 dg cdg.
+Definition hardlink (name target : list Z) : entry := E name THardlink 0 None 0 target 0 0 0 0 0 [] 0 0 0 0 0 0.
+
+(* F12: a hardlink entry before the entry it names — memory accepts, db rejects *)
+Theorem C05_stores_agree_refuted_forward_hardlink : exists toc,
+  conforming toc = true /\ view_mem toc [] <> None /\ view_db false toc [] = None.
+Proof. exists [hardlink [10] [11]; reg [11] 5 7 8]. vm_compute. repeat split. discriminate. Qed.
+Print Assumptions C05_stores_agree_refuted_forward_hardlink.
+
+(* F51: "entries":null — memory shows an empty root, db rejects *)
+Theorem C05_stores_agree_refuted_entries_null : view_mem [] [] <> None /\ view_db true [] [] = None.
+Proof. vm_compute. split; [discriminate|reflexivity]. Qed.
+Print Assumptions C05_stores_agree_refuted_entries_null.
+
+(* F52: TOC starting with a chunk entry (not conforming; the accept/reject clause) — memory accepts, db rejects *)
+Theorem C05_stores_accept_same_refuted_chunk_first : exists toc,
+  view_mem toc [] <> None /\ view_db false toc [] = None.
+Proof. exists [ent [11] TChunk; reg [11] 5 7 8]. vm_compute. split; [discriminate|reflexivity]. Qed.
+Print Assumptions C05_stores_accept_same_refuted_chunk_first.
+
+(* F11: a directory entry after an entry below it — both accept, the root's link count differs (3 vs 4) *)
+Theorem C05_stores_agree_refuted_dir_after_child : exists toc,
+  conforming toc = true /\
+  option_map a_nlink (root_attr_of (view_mem toc [])) = Some 3 /\
+  option_map a_nlink (root_attr_of (view_db false toc [])) = Some 4.
+Proof. exists [reg [10; 11] 5 7 8; ent [10] TDir]. vm_compute. repeat split. Qed.
+Print Assumptions C05_stores_agree_refuted_dir_after_child.
+
+(* F53: reg entry with a file digest but no chunk digest — ChunkEntryForOffset(0) reports digest 7 (memory) vs none (db) *)
+Theorem C05_stores_agree_refuted_no_chunk_digest : exists toc,
+  conforming toc = true /\
+  option_map (fun l => map v_probes l) (view_mem toc [0]) = Some [[]; [Some (0, 5, 7)]] /\
+  option_map (fun l => map v_probes l) (view_db false toc [0]) = Some [[]; [Some (0, 5, 0)]].
+Proof. exists [reg [11] 5 7 0]. vm_compute. repeat split. Qed.
+Print Assumptions C05_stores_agree_refuted_no_chunk_digest.
+
+(* F13: db GetAttr(root) does not wait for the TOC to be loaded: before that it reports another root than afterwards *)
+Theorem C05_root_attr_stable_refuted : exists toc,
+  conforming toc = true /\ root_attr_of (view_db false toc []) <> Some db_early_root_attr.
+Proof. exists [ent [10] TDir]. vm_compute. split; [reflexivity|discriminate]. Qed.
+Print Assumptions C05_root_attr_stable_refuted.
+
+(* ---------- non-vacuity ---------- *)
+
+(* a conforming two-chunk file (sizes 4+3, second chunk size implied) satisfies the hypotheses of the chunk theorems *)
+Example C05_file_conforming_nonvacuous :
+  let r := E [11] TReg 7 None 0 [] 420 0 0 0 0 [] 100 0 0 4 9 8 in
+  let c := E [11] TChunk 0 None 0 [] 0 0 0 0 0 [] 150 0 4 0 0 6 in
+  file_conforming r [c] /\ file_mem_lookup r [c] 5 = Some (4, 3, 6) /\ file_db_lookup r [c] 5 = Some (4, 3, 6).
+Proof.
+  split; [|split; reflexivity].
+  constructor.
+  - reflexivity.
+  - repeat constructor.
+  - reflexivity.
+  - simpl. split; [intros x [<-|[]]; vm_compute; reflexivity|]. split; [intros x []|exact I].
+  - simpl. repeat split; vm_compute; reflexivity.
+  - repeat constructor; vm_compute; reflexivity.
+  - constructor; [left; discriminate|constructor; [left; discriminate|constructor]].
+Qed.
+
+(* a TOC with an implicit parent, a repeated directory with other attributes, a root entry "./", a hardlink to a hardlink,
+   a respelled name and an empty-valued xattr is conforming, accepted by both models and shown identically *)
+Example C05_agree_nonvacuous :
+  let toc := [ E [1; 0] TDir 0 (Some 5) 0 [] 457 3 0 0 0 [(1, 0); (2, 5)] 0 0 0 0 0 0;
+               ent [10] TDir; reg [10; 11] 5 7 8; E [2; 10] TDir 0 None 0 [] 448 9 9 0 0 [] 0 0 0 0 0 0;
+               hardlink [12; 13] [1; 10; 11]; hardlink [14] [12; 2; 12; 13] ] in
+  conforming toc = true /\ view_mem toc [0; 4; 5] = view_db false toc [0; 4; 5] /\ view_mem toc [] <> None.
+Proof. vm_compute. repeat split. discriminate. Qed.
+
+(* two layers in one database, one closed: the other one still shows its filesystem *)
+Example C05_bytes_nonvacuous :
+  encode_int 300 = [216; 4] /\ encode_int (-1) = [1] /\ decode_int [216; 4] = Some 300 /\ clean [1; 10; 2; 0; 11; 12; 2] = [11].
+Proof. vm_compute. repeat split. Qed.
+
+Example C05_layers_nonvacuous :
+  let d := l_run [] [LOpen [1] [ent [10] TDir]; LOpen [1; 2] [reg [11] 5 7 8]] in
+  l_find 1 d <> None /\ l_find 2 d <> None /\ l_view (l_run d [LClose 2; LOpen [2] []]) 1 [] = l_view d 1 [].
+Proof. vm_compute. repeat split; discriminate. Qed.
